@@ -38,7 +38,7 @@ PLAIN = (type(None), bool, int, float, str, bytes)
 REFS = {
   'listed': [('copy_reg', '_reconstructor'), ('__builtin__', 'object')],
   'othername': [('copy_reg', 'dispatch_table'), ('__builtin__', 'eval')],
-  'othermod': [('verif_canary', 'fire'), ('verif_canary', 'Boom'), ('builtins', 'len'), ('os', 'getpid'), ('copyreg', '_reconstructor')],
+  'othermod': [('verif_canary', 'fire'), ('verif_canary', 'Boom'), ('verif_cold', 'fire'), ('builtins', 'len'), ('os', 'getpid'), ('copyreg', '_reconstructor')],
 }
 EXT_CODES = {}
 
@@ -214,6 +214,7 @@ class Env13(object):
     log = []
     del self.canary.CALLS[:]
     self.imports = []
+    sys.modules.pop('verif_cold', None)      # importable, not loaded: an import during unpickling becomes visible
     frame = struct.pack('!L', len(payload)) + payload
     if target == 'receiver':
       run = wiresys.Run(wm, 'pickle')
@@ -244,6 +245,9 @@ class Env13(object):
     allowed_modules = {'copy_reg', '__builtin__'}
     imported = sorted(set(m for m in self.imports if m.split('.')[0] not in allowed_modules and m not in sys.modules or m == 'verif_canary'))
     imported = sorted(set(m for m in self.imports if m.split('.')[0] not in allowed_modules))
+    if 'verif_cold' in sys.modules and 'verif_cold' not in imported:
+      imported.append('verif_cold')
+    called = [c for c in called if c != 'import:verif_cold']
     return outcome, result, called, imported
 
 
@@ -299,6 +303,11 @@ def run(ctx):
                                   (((b'\x80' + bytes([proto])) if proto >= 2 else b'') + val + b'.', 'bare %s' % route)):
               for target in ('receiver', 'query'):
                 recs.append(record(e13, ops, payload, target, '%s %s.%s proto %d' % (what, mod, name, proto)))
+  # a module that is importable but not loaded: naming it in a frame must not get it imported
+  for payload, what in ((b'cverif_cold\nfire\n)R.', 'GLOBAL+REDUCE'), (b'cverif_cold\nnothing\n.', 'GLOBAL of a missing attribute'),
+                        (b'\x80\x04\x8c\nverif_cold\x8c\x04fire\x93.', 'STACK_GLOBAL'), (b'(iverif_cold\nfire\n.', 'INST')):
+    for target in ('receiver', 'query'):
+      recs.append(record(e13, [('global' if what != 'INST' else 'inst', 'othermod')], payload, target, 'not-yet-imported module, ' + what))
   # configuration: every spelling of "off" that carbon.conf accepts must select the safe unpickler
   import os
   from carbon.conf import Settings
